@@ -1130,6 +1130,11 @@ pub fn work_list(cfg: &RunCfg) -> Option<WorkList> {
     {
         fixed.push(Item::new(w, "witness"));
     }
+    // unusual assertions and case-insensitive multi-byte literals through every wrapper
+    for w in ["\\<", "\\>", "1\\>", "\\<a", "\\B", "\\A|\\z", "\\Z", "(?m:$)", "\\h", "\\H+", "(?i)\u{17f}", "(?i)\u{212a}", "(?i)\u{212a}(?!b)", "(?i)\u{1c5}", "\\x41|\\e", "\\pL", "[^\\d]\\b",
+              "\\<(?=)", "\\>(?=)", "(?i)\u{17f}(?=)", ",", "\\|", "1\\.5", "-+", "\\-|\\+"].iter() {
+        fixed.push(Item::new(w, "witness"));
+    }
     if cfg.prop == "C09" {
         // `\G` inside a look-behind: position-sensitive whatever the entry point; coherence
         // between the entry points needs no reference semantics (seed S8-C09)
